@@ -22,6 +22,27 @@ fn read_footer(f: &dyn RandomAccess, size: usize) -> Result<Footer> {
     Ok(Footer::decode(&buf))
 }
 
+/// A block access observed by `Table::read_block` (verification hook): cache id, block offset
+/// and whether the block was served from the cache.
+#[cfg(sstable_verif)]
+#[derive(Clone, Debug, PartialEq)]
+pub struct BlockEvent {
+    pub cache_id: cache::CacheID,
+    pub offset: usize,
+    pub hit: bool,
+}
+
+#[cfg(sstable_verif)]
+thread_local! {
+    static BLOCK_EVENTS: std::cell::RefCell<Vec<BlockEvent>> = std::cell::RefCell::new(Vec::new());
+}
+
+/// Drains the calling thread's block access log.
+#[cfg(sstable_verif)]
+pub fn take_block_events() -> Vec<BlockEvent> {
+    BLOCK_EVENTS.with(|e| std::mem::replace(&mut *e.borrow_mut(), Vec::new()))
+}
+
 /// `Table` is used for accessing SSTables.
 #[derive(Clone)]
 pub struct Table {
@@ -111,8 +132,24 @@ impl Table {
         let cachekey = self.block_cache_handle(location.offset());
         let mut block_cache = self.opt.block_cache.write()?;
         if let Some(block) = block_cache.get(&cachekey) {
+            #[cfg(sstable_verif)]
+            BLOCK_EVENTS.with(|e| {
+                e.borrow_mut().push(BlockEvent {
+                    cache_id: self.cache_id,
+                    offset: location.offset(),
+                    hit: true,
+                })
+            });
             return Ok(block.clone());
         }
+        #[cfg(sstable_verif)]
+        BLOCK_EVENTS.with(|e| {
+            e.borrow_mut().push(BlockEvent {
+                cache_id: self.cache_id,
+                offset: location.offset(),
+                hit: false,
+            })
+        });
 
         // Two times as_ref(): First time to get a ref from Rc<>, then one from Box<>.
         let b =
@@ -229,6 +266,37 @@ impl TableIterator {
         self.current_block_off = new_block_handle.offset();
 
         Ok(())
+    }
+}
+
+#[cfg(sstable_verif)]
+impl Table {
+    /// The cache id assigned to this table (verification hook).
+    pub fn verif_cache_id(&self) -> cache::CacheID {
+        self.cache_id
+    }
+    /// Whether a filter block is attached (verification hook).
+    pub fn verif_has_filter(&self) -> bool {
+        self.filters.is_some()
+    }
+}
+
+#[cfg(sstable_verif)]
+impl TableIterator {
+    /// Read-only fingerprint: index iterator state, whether a block is loaded, the loaded block's
+    /// offset and its iterator state.
+    pub fn verif_state(
+        &self,
+    ) -> (
+        (usize, usize, usize, usize, Vec<u8>, usize),
+        Option<(usize, (usize, usize, usize, usize, Vec<u8>, usize))>,
+    ) {
+        (
+            self.index_block.verif_state(),
+            self.current_block
+                .as_ref()
+                .map(|b| (self.current_block_off, b.verif_state())),
+        )
     }
 }
 
